@@ -28,16 +28,19 @@ class P(MetProp):
 
     def one(self, rng, m, i):
         ls = []
+        dense = rng.random() < 0.6
         for side in ("l", "r"):
-            for app in rng.sample(["a", "b", "c", "d"], rng.randint(0, 3)):
-                ls.append({"side": side, "app": app})
+            k = rng.randint(2, 4) if dense else rng.randint(0, 3)
+            for app in rng.sample(["a", "b", "c", "d"], k):
+                # several records per series so that values differ between series and between the two sides
+                ls += [{"side": side, "app": app}] * (rng.randint(1, 4) if dense else 1)
         if not ls:
             ls = [{"side": "l", "app": "a"}]
         rng_ns = rng.choice([S // 2, S, 2 * S])
         step = S
         k = rng.randint(1, 4)
         start, end = T0, T0 + k * S
-        recs = m.records(rng.randint(4, 14), start - rng_ns - S, (end - start) + rng_ns + S, ls, lines=("x",), numeric=None)
+        recs = m.records(rng.randint(10, 22) if dense else rng.randint(4, 14), start - rng_ns - S, (end - start) + rng_ns + S, ls, lines=("x",), numeric=None)
         drop = [m.g.st_dropkeep("drop", ["msg"], [])]
 
         def side(sd, by, off=0):
@@ -53,8 +56,8 @@ class P(MetProp):
             else:
                 evals.append({"q": b64e(q), "qcoq": e["coq"], "start": start, "end": end, "step": step})
             return len(evals) - 1
-        kind = rng.choice(["vv", "vv", "vv", "lit", "lit", "lit", "lit", "set", "set", "vector", "vector"])
-        by = rng.choice([["app"], ["app"], [], ["nosuch"]])
+        kind = rng.choice(["vv", "vv", "vv", "lit", "lit", "lit", "litbool", "set", "set", "set", "vector", "vector"])
+        by = rng.choice([["app"], ["app"], [], ["nosuch"]]) if not dense else ["app"]
         L = side("l", by, rng.choice([0, 0, 0, S]))
         R = side("r", by if rng.random() < 0.8 else ["app"])
         il, ir = add(L), add(R)
@@ -63,6 +66,14 @@ class P(MetProp):
             rb = op in CMP and rng.random() < 0.4
             e = m.mbin(op, L, R, rb)
             rels.append("MRelBin %d %d %d %s %s" % (il, ir, add(e), BOP[op], "true" if rb else "false"))
+        elif kind == "litbool":
+            # comparison with the `bool` modifier against a threshold inside the range of values: some series pass, some do not
+            op = rng.choice(CMP)
+            c = rng.choice([1, 2, 2, 3, 4])
+            left = rng.random() < 0.3
+            lit = m.mlit(c)
+            e = m.mbin(op, lit, L, True) if left else m.mbin(op, L, lit, True)
+            rels.append("MRelLit %d %d %s true %s %s" % (il, add(e), BOP[op], cfloat(c), "true" if left else "false"))
         elif kind == "lit":
             op = rng.choice(ARITH + CMP + ["/", "/", "%", "-"])
             rb = op in CMP and rng.random() < 0.4
@@ -72,7 +83,7 @@ class P(MetProp):
             e = m.mbin(op, lit, L, rb) if left else m.mbin(op, L, lit, rb)
             rels.append("MRelLit %d %d %s %s %s %s" % (il, add(e), BOP[op], "true" if rb else "false", cfloat(c), "true" if left else "false"))
         elif kind == "set":
-            op = rng.choice(SETOPS)
+            op = rng.choice(SETOPS + ["or"])
             e = m.mbin(op, L, R)
             rels.append("MRelSet %d %d %d %s" % (il, ir, add(e), BOP[op]))
         else:
